@@ -453,9 +453,11 @@ pub(super) fn bang_operator(p: &mut Parser) -> CompletedMarker {
 pub(super) fn cond_operator(p: &mut Parser) -> CompletedMarker {
     p.start_node(SyntaxKind::CondOperator);
     p.expect(T![!cond]);
-    delimited(p, T!['('], T![')'], T![,], |p| {
+    if !delimited(p, T!['('], T![')'], T![,], |p| {
         cond_clause(p);
-    });
+    }) {
+        p.error("expected at least one clause in !cond");
+    }
     p.finish_node();
     CompletedMarker::Success
 }
